@@ -52,7 +52,7 @@ Record oracle := mkOr {
   o_refund : Z;      (* stateDB.GetRefund() *)
   o_failed : bool;   (* vmErr <> nil *)
   o_world : string;  (* digest of all other stores if the execution's writes are kept *)
-  o_ctxgas : Z       (* ResponseDeliverTx.GasUsed: when validateBasic fails or the ante handler panics, runTx's context was
+  o_ctxgas : Z       (* ResponseDeliverTx.GasUsed: when validateBasicTxMsgs fails (reason 2), runTx's context was
                         never replaced and whatever sits on the deliver-state context's own gas meter (BeginBlock and
                         consensus-param reads) is added to the block gas meter by the deferred consumeBlockGas *)
 }.
@@ -114,7 +114,8 @@ Definition admit_reason (e : env) (bal : Z) (nonce : option Z) (bgas : Z) (t : t
   else
     let fees := eff_price e t * t_gas t in
     if fees <=? 0 then 6        (* ClaimStakingRewardsIfNecessary: an empty fee has "the wrong denomination" *)
-    else if bal <? fees then 10 (* ... insufficient balance: the dogfood staking keeper panics "unimplemented", runTx recovers *)
+    else if bal <? fees then 10 (* EthGasConsumeDecorator: balance below the fee, an ordinary error since fix 07834a8
+                                   (before: a recovered panic in the claim-rewards helper that also consumed block gas) *)
     else if (match nonce with None => true | Some _ => false end) then 6   (* DeductTxCosts: GetSignerAcc *)
     else if (0 <=? e_blim e) && (e_blim e <? t_gas t) then 7    (* gas wanted above the block gas limit *)
     else match nonce with
@@ -130,7 +131,7 @@ Definition deliver (e : env) (s : state) (t : tx) (o : oracle) : state * result 
   let bal := aget 0 (s_bal s) (t_from t) in
   let nonce := aget None (s_nonce s) (t_from t) in
   let why := admit_reason e bal nonce (s_bgas s) t in
-  if (why =? 2) || (why =? 10) then (with_bgas s (s_bgas s + o_ctxgas o), Rejected why)
+  if why =? 2 then (with_bgas s (s_bgas s + o_ctxgas o), Rejected why)
   else if negb (why =? 0) then (s, Rejected why)
   else
     let price := eff_price e t in
@@ -292,10 +293,10 @@ Fixpoint gasrule_txs (e : env) (l : list (tx * oracle * obs)) (i : nat) : option
 
 Definition gasrule_case (c : case) : option nat := gasrule_txs (c_env c) (c_txs c) 0.
 
-(* "is not included and costs nothing", read for the block as well: a transaction refused by one of the admission checks the
-   property names (block gas left, price, balance, gas above the block limit, nonce: reasons 1 and 3-10) must leave the block
-   gas meter alone, otherwise it eats capacity that later transactions of other senders paid for. Reason 2 (a malformed
-   message refused by validateBasic before the ante handler) is outside that list. *)
+(* "is not included and costs nothing", read for the block as well (finding F2, fixed 07834a8): a transaction refused by one
+   of the admission checks the property names (block gas left, price, balance, gas above the block limit, nonce: reasons 1
+   and 3-10) must leave the block gas meter exactly where it was. Reason 2 (a malformed message refused by
+   validateBasicTxMsgs before the ante handler) is outside that list (observation R3). *)
 Definition blockgas_ok (e : env) (t : tx) (pre post : view) : bool :=
   let why := admit_reason e (v_sbal pre) (v_nonce pre) (v_bgas pre) t in
   if (why =? 1) || (3 <=? why) then v_bgas post =? v_bgas pre else true.
